@@ -181,9 +181,9 @@ def body():
                 for (a, b), (e1, e2) in zip(affine, res):
                     worst[0], worst[1] = max(worst[0], e1), max(worst[1], e2)
                     chk.count("%s/resid/%s%s" % (s.id, a, what), True)
-                    if e1 > 1e-6:
+                    if not (e1 <= 1e-6):   # NaN counts as a deviation
                         fail("residual:first", "(1/2 M + K) g = V psi violated%s: relative residual %.3g at orders (12,10) for u = %s.x + %s" % (what, e1, a, b))
-                    if e2 > 1e-6:
+                    if not (e2 <= 1e-6):   # NaN counts as a deviation
                         fail("residual:second", "W g = (1/2 M' - K') psi violated%s: relative residual %.3g at orders (12,10) for u = %s.x + %s" % (what, e2, a, b))
             if si < 3:
                 chk.sample({"surface": label, "cells": s.h["cells"], "elements": s.n, "euler": s.h["euler"]})
